@@ -191,6 +191,15 @@ pub fn gen_for(prop: &str, seed: u64) -> Scenario {
         crate::afamily::asyncify(&mut sc, &mut rng);
         return sc;
     }
+    if prop == "C12" && rng.chance(1, 5) {
+        // a thread-local system that panics (caught) must not change what later dispatches run
+        let inf = infos(&sc.regs);
+        let tls: Vec<usize> = inf.iter().filter(|i| i.parent.is_none() && i.kind == Kind::Tl).map(|i| i.sid).collect();
+        if !tls.is_empty() {
+            sc.calls = vec![Call::Dispatch, Call::Dispatch, *rng.pick(&[Call::DispatchTl, Call::Dispatch])];
+            sc.faults.push(Fault { sid: *rng.pick(&tls), call: 0, kind: *rng.pick(&[FaultKind::PanicBefore, FaultKind::PanicMid, FaultKind::PanicAfter]), arg: 0 });
+        }
+    }
     if prop == "C13" {
         // lifecycle: removals / overwrites followed by another setup; worlds in which
         // everything already exists
@@ -317,9 +326,15 @@ pub fn plan_runs(prop: &str, sc: &Scenario, infos: &[SysInfo], layout: &crate::b
                         1 => Call::DispatchPar,
                         _ => Call::Dispatch,
                     };
-                    s.calls = vec![first, Call::Dispatch];
-                    if rng.chance(1, 4) {
-                        s.calls.push(Call::DispatchSeq);
+                    // the recovery dispatch may be of another kind than the one that panicked
+                    let second = match rng.below(4) {
+                        0 => Call::DispatchSeq,
+                        1 => Call::DispatchPar,
+                        _ => Call::Dispatch,
+                    };
+                    s.calls = vec![first, second];
+                    if rng.chance(1, 3) {
+                        s.calls.push(*rng.pick(&[Call::DispatchSeq, Call::Dispatch, Call::DispatchTl]));
                     }
                     s.faults = vec![Fault { sid: i.sid, call: 0, kind, arg: 0 }];
                     if rng.chance(1, 6) && infos.len() > 1 {
